@@ -20,6 +20,7 @@ import (
 	"verif/sim/schema"
 	"verif/sim/sess"
 	"verif/sim/simio"
+	"verif/sim/simnode"
 )
 
 // C15 — the JSON writer always emits well-formed, correctly named and typed
@@ -76,6 +77,87 @@ func c15Run(env *sess.Env, sc *c15Scenario, pretty bool) (ex c15Exec) {
 		ex.err = sel.UpsertInto(wtr.Node())
 	}
 	return
+}
+
+// c15Helpers exercises the helper entry points that wrap the writer
+// (WriteJSON, WritePrettyJSON, JSONWtr.JSON): a first call whose SOURCE fails at
+// a seeded callback, then a second call on the same data with nothing failing.
+// Whatever the failed call left behind, the second must produce exactly the
+// document the writer produces for that configuration.
+func c15Helpers(env *sess.Env, sc *c15Scenario, r *kit.Rng) (detail string, fired bool) {
+	defer func() {
+		if p := recover(); p != nil {
+			detail = fmt.Sprintf("panic in a helper call: %v at %s", p, sess.TopRepoFrame())
+		}
+	}()
+	which := r.Intn(3)
+	call := func(sel *node.Selection) (string, error) {
+		switch which {
+		case 0:
+			return nodeutil.WriteJSON(sel)
+		case 1:
+			return nodeutil.WritePrettyJSON(sel)
+		}
+		return nodeutil.JSONWtr{EnumAsIds: sc.EnumIds}.JSON(sel)
+	}
+	selOf := func(ss *simnode.Session) (*node.Selection, error) {
+		var src node.Node = mnode.Tree(sc.Tree.Clone())
+		if ss != nil {
+			src = ss.Wrap(src, "S", nil, "")
+		}
+		sel, err := sess.FindSel(node.NewBrowser(env.Mod, src).Root(), sc.At)
+		if err == nil && sel != nil && sc.Leaf != "" {
+			sel, err = sel.Find(sc.Leaf)
+		}
+		if err != nil || sel == nil {
+			return nil, fmt.Errorf("start selection not found: %v", err)
+		}
+		return sel, nil
+	}
+	// what the configuration must produce
+	sel, err := selOf(nil)
+	if err != nil {
+		return "", false
+	}
+	want, err := call(sel)
+	if err != nil {
+		return "", false // (a known finding of the fault-free writer; reported elsewhere)
+	}
+	// a traced run to learn how many source callbacks there are
+	log := kit.NewLog(0)
+	tr := simnode.NewSession(log, nil)
+	if sel, err = selOf(tr); err != nil {
+		return "", false
+	}
+	start := len(tr.Events)
+	call(sel)
+	n := len(tr.Events) - start
+	if n < 2 {
+		return "", false
+	}
+	// the failing call
+	fs := simnode.NewSession(kit.NewLog(0), nil)
+	if sel, err = selOf(fs); err != nil {
+		return "", false
+	}
+	fs.Faults = []simnode.Fault{{At: len(fs.Events) + 1 + r.Intn(n-1), Kind: simnode.FError}}
+	_, ferr := call(sel)
+	fired = len(fs.Fired) > 0
+	if fired && ferr == nil {
+		return fmt.Sprintf("helper %d: a source callback failed (%s) and the helper returned nil", which, fs.Fired[0]), true
+	}
+	// the next call, nothing failing
+	if sel, err = selOf(nil); err != nil {
+		return "", fired
+	}
+	got, err := call(sel)
+	if err != nil {
+		return fmt.Sprintf("helper %d: the call after a failed call returned %v", which, err), fired
+	}
+	if got != want {
+		return fmt.Sprintf("helper %d: after a call that failed part-way the next call returned %d bytes starting %q, the document is %d bytes starting %q", which, len(got), cut80(got), len(want), cut80(want)), fired
+	}
+	return "", fired
 }
 
 // ---------------------------------------------------------------- ordered JSON
@@ -630,6 +712,16 @@ func c15Explore(sc *c15Scenario, seed uint64, everyByte bool) (out RunOut, sampl
 	for _, v := range c15Check(sc, env, &base, seed) {
 		out.Violations = append(out.Violations, v)
 	}
+	if base.panic == nil && base.err == nil && seed%3 == 0 {
+		d, fired := c15Helpers(env, sc, kit.NewRng(seed^0x68656c70))
+		out.Evals += 3
+		if fired {
+			out.Stats.Inc("probe:helper called again after a call that failed part-way")
+		}
+		if d != "" {
+			out.Violations = append(out.Violations, mk(&base, "helper", "helper-after-failed-call", d, *sc))
+		}
+	}
 	L := len(base.w.Accepted)
 	out.Steps += int64(len(base.w.Calls))
 	switch {
@@ -860,4 +952,11 @@ func init() {
 		}
 		return c
 	}
+}
+
+func cut80(s string) string {
+	if len(s) > 80 {
+		return s[:80] + "…"
+	}
+	return s
 }
